@@ -187,7 +187,11 @@ func callAll(u, i int, tag string, v reflect.Value) {
 		func() {
 			defer func() {
 				if r := recover(); r != nil {
-					out(u, i, tag, k, "call PANIC")
+					msg := fmt.Sprint(r)
+					if strings.Contains(msg, "nil pointer dereference") || strings.Contains(msg, "called using nil") {
+						msg = "(nil receiver)" // the wording of this run-time error is not compared
+					}
+					out(u, i, tag, k, "call PANIC", msg)
 				}
 			}()
 			var res []reflect.Value
